@@ -32,6 +32,7 @@ def extra(tier):
     enga.init()
     res += hist_probe.returned_value_probe()
     res += hist_probe.global_state_probe()
+    res += hist_probe.legacy_registration_probe()
     res += [r for r in lapack_probe.run(runner.SEED) if "np.geterr" in r["key"]]
     return res
 
